@@ -794,3 +794,68 @@ Section Complete.
       finish_path d n.
     - rewrite !knotify_miss by exact Hcov. eexists; split; reflexivity.
   Qed.
+
+  Lemma emit_delete_self_nonroot ct wd c nm p :
+    beqb p root = false ->
+    emit_single full rec root ct {| r_wd := wd; r_mask := IN_DELETE_SELF; r_cookie := c; r_name := nm; r_path := p |}
+    = ([], false).
+  Proof. intros H. unfold emit_single. cbn [r_mask r_path]. rewrite H. reflexivity. Qed.
+
+  Lemma wd_distinct (w1 w2 : kwatch) a b :
+    alookup N.eqb (kw_wd w1) (pfw r) = Some a -> alookup N.eqb (kw_wd w2) (pfw r) = Some b -> a <> b ->
+    kw_wd w1 <> kw_wd w2.
+  Proof. intros H1 H2 Hn E. rewrite E in H1. congruence. Qed.
+
+  Lemma contract_rmdir d n w' :
+    d <> [] -> last_is_sep d = false -> valid_name n = true ->
+    cover C r k (w_fs w) d -> cover C r k (w_fs w) (d ++ sep :: n) ->
+    d ++ sep :: n <> root ->
+    apply_op w (Rmdir (d ++ sep :: n)) = Some w' ->
+    delivers C full w k r (Rmdir (d ++ sep :: n)).
+  Proof.
+    intros Hd Hs Hn Hcov Hcovp Hnr Happ. start_op Happ Hd Hs Hn. unfold cover in Hcov, Hcovp.
+    apply beqb_neq in Hnr. fold rec root in Hcov, Hcovp |- *.
+    assert (Hdp : d <> d ++ sep :: n).
+    { intros E. apply (f_equal (@length N)) in E. rewrite app_length in E. simpl in E. lia. }
+    destruct (watched_dir rec root (d ++ sep :: n)).
+    - destruct Hcovp as [wp [Hw' [Hm' [Hp' Hf']]]].
+      rewrite (kgone_hit _ _ _ _ wp Hw' Hm'). rewrite kpush_nil.
+      rewrite kpush_one by (apply kraw_neq_mask; reflexivity).
+      destruct (watched_dir rec root d).
+      + destruct Hcov as [wt [Hw [Hm [Hp Hf]]]].
+        assert (Hne := wd_distinct wt wp _ _ Hp Hp' Hdp).
+        rewrite (knotify_hit _ _ _ _ _ _ _ _ wt (watch_kdrop _ _ _ _ Hw Hne) Hm) by reflexivity.
+        rewrite kpush_two by (apply kraw_neq_mask; reflexivity).
+        cbn [k_queue kset read_batch].
+        rewrite (read_one_plain C _ _ _ _ _ (d ++ sep :: n)) by (first [exact Hp' | reflexivity]).
+        rewrite (read_one_ignored C _ _ _ _ _ (d ++ sep :: n)) by (first [exact Hp' | exact Hf' | reflexivity]).
+        rewrite (read_one_plain C _ _ _ _ _ d)
+          by (first [cbn [pfw k_wd kev kignored]; rewrite alookup_aremove_neq by exact Hne; exact Hp | reflexivity]).
+        cbn [k_name kev kignored app rpath]. rewrite ?rpath_child by assumption.
+        revert Hnr. generalize (d ++ sep :: n). intros p Hnr.
+        eexists. split; [reflexivity|].
+        match goal with |- context [group_batch C ?l] =>
+          let g := eval lazy in (group_batch C l) in change (group_batch C l) with g end.
+        cbn [emit_all emit mkraw kev]. rewrite emit_delete_self_nonroot by exact Hnr.
+        reflexivity.
+      + rewrite knotify_miss by (apply watch_kdrop_none; exact Hcov).
+        cbn [k_queue kset read_batch].
+        rewrite (read_one_plain C _ _ _ _ _ (d ++ sep :: n)) by (first [exact Hp' | reflexivity]).
+        rewrite (read_one_ignored C _ _ _ _ _ (d ++ sep :: n)) by (first [exact Hp' | exact Hf' | reflexivity]).
+        cbn [k_name kev kignored app rpath].
+        revert Hnr. generalize (d ++ sep :: n). intros p Hnr.
+        eexists. split; [reflexivity|].
+        match goal with |- context [group_batch C ?l] =>
+          let g := eval lazy in (group_batch C l) in change (group_batch C l) with g end.
+        cbn [emit_all emit mkraw kev]. rewrite emit_delete_self_nonroot by exact Hnr.
+        reflexivity.
+    - rewrite kgone_miss by exact Hcovp.
+      destruct (watched_dir rec root d).
+      + destruct Hcov as [wt [Hw [Hm [Hp Hf]]]].
+        rewrite (knotify_hit _ _ _ _ _ _ _ _ wt Hw Hm) by reflexivity. rewrite kpush_nil.
+        cbn [k_queue kset read_batch].
+        rewrite (read_one_plain C _ _ _ _ _ d) by (first [exact Hp | reflexivity]).
+        finish_path d n.
+      + rewrite knotify_miss by exact Hcov. eexists; split; reflexivity.
+  Qed.
+End Complete.
